@@ -13,7 +13,7 @@
 //! After every operation the whole store is dumped through its public query API and compared
 //! with the model. Return values of mutating operations are recorded in the outcome histogram but
 //! not judged (the statement is silent about them). The sqlite handles cannot be forked, so states
-//! are rebuilt by replaying the history on a fresh in-memory database.
+//! are rebuilt by replaying the history on an empty in-memory database.
 
 use mcx::explore::{self, Bounds, Result_, StepOut, System};
 use mcx::report::{Ctx, Violation, Violations};
@@ -59,10 +59,27 @@ fn ts(t: u8) -> Timestamp {
     Timestamp::try_from(t as u64).unwrap()
 }
 
-/// Fresh in-memory node database knowing the local node and the other nodes of the universe
-/// (routing and sync-status rows reference the `nodes` table).
+thread_local! {
+    /// Emptied databases waiting for reuse by this worker (see `recycle`).
+    static POOL: std::cell::RefCell<Vec<(u8, Database)>> = const { std::cell::RefCell::new(Vec::new()) };
+}
+
+/// An empty in-memory node database knowing the local node and the other nodes of the universe
+/// (routing and sync-status rows reference the `nodes` table). Opening and migrating a database
+/// costs ten times more than a store operation and serialises the workers on the allocator, so a
+/// worker reuses the databases of the systems it has dropped once all rows of the four tables
+/// under test are deleted (row ids restart at 1 in an empty table). The engine's replay check —
+/// every stored history must reach the same canonical key again, row ids and row order included —
+/// guards this on every state.
 fn database(nodes: u8) -> Database {
     use radicle::node::address::Store as _;
+    let pooled = POOL.with(|p| {
+        let mut p = p.borrow_mut();
+        p.iter().position(|(n, _)| *n == nodes).map(|i| p.swap_remove(i).1)
+    });
+    if let Some(db) = pooled {
+        return db;
+    }
     let mut db = Database::memory()
         .unwrap()
         .init(&nid(0), Features::SEED, &Alias::new("local"), &UserAgent::default(), ts(1), [].iter())
@@ -71,6 +88,22 @@ fn database(nodes: u8) -> Database {
         db.insert(&nid(i), 1, Features::SEED, &Alias::new(format!("n{i}")), 0, &UserAgent::default(), ts(1), []).unwrap();
     }
     db
+}
+
+/// Called when a system is dropped: empty the tables and keep the handle for the next system.
+fn recycle(nodes: u8, db: &Database) {
+    if std::thread::panicking() {
+        return; // a store operation panicked half-way: this database is not reused
+    }
+    let emptied = db.db.execute("DELETE FROM routing; DELETE FROM `repo-sync-status`; DELETE FROM refs; DELETE FROM announcements;").is_ok();
+    if emptied {
+        POOL.with(|p| {
+            let mut p = p.borrow_mut();
+            if p.len() < 8 {
+                p.push((nodes, db.clone()));
+            }
+        });
+    }
 }
 
 /// Compare the real store's dump with the model; classify the first difference.
@@ -174,6 +207,12 @@ impl RSys {
     }
 }
 
+impl Drop for RSys {
+    fn drop(&mut self) {
+        recycle(self.sp.nodes, &self.db);
+    }
+}
+
 impl System for RSys {
     type Ev = REv;
 
@@ -274,11 +313,20 @@ impl System for RSys {
         }
         self.dump = self.dump(&mut vs);
         vs.extend(diff("routing", op, &before, &self.model, &self.dump));
+        self.model = self.dump.clone(); // a reported difference is not carried into later steps
         StepOut { violations: vs, outcome, dead: false }
     }
 
     fn canon(&self) -> Vec<u8> {
-        format!("{:?}|{:?}", self.dump, self.model).into_bytes()
+        // A bounded prune picks among equally old rows by physical order: the insertion order of
+        // the rows is part of the state (read from the table for the canonical key only).
+        let mut order = vec![];
+        if let Ok(stmt) = self.db.db.prepare("SELECT repo, node FROM routing ORDER BY rowid") {
+            for row in stmt.into_iter().flatten() {
+                order.push(format!("{}/{}", row.read::<&str, _>("repo"), row.read::<&str, _>("node")));
+            }
+        }
+        format!("{:?}|{:?}|{}", self.dump, self.model, order.join(",")).into_bytes()
     }
 }
 
@@ -332,6 +380,12 @@ impl SSys {
     }
 }
 
+impl Drop for SSys {
+    fn drop(&mut self) {
+        recycle(self.nodes, &self.db);
+    }
+}
+
 impl System for SSys {
     type Ev = SEv;
     fn enabled(&self) -> Vec<SEv> {
@@ -374,6 +428,7 @@ impl System for SSys {
         };
         self.dump = self.dump(&mut vs);
         vs.extend(diff("sync-status", "synced", &before, &self.model, &self.dump));
+        self.model = self.dump.clone(); // a reported difference is not carried into later steps
         StepOut { violations: vs, outcome: format!("sync-status.synced:{branch}:ret={ret}"), dead: false }
     }
     fn canon(&self) -> Vec<u8> {
@@ -426,6 +481,12 @@ impl FSys {
             vs.push(inconsistent("refs", "count", format!("count() = {c} but get() finds {}", m.len())));
         }
         m
+    }
+}
+
+impl Drop for FSys {
+    fn drop(&mut self) {
+        recycle(2, &self.db);
     }
 }
 
@@ -483,6 +544,7 @@ impl System for FSys {
         }
         self.dump = self.dump(&mut vs);
         vs.extend(diff("refs", op, &before, &self.model, &self.dump));
+        self.model = self.dump.clone(); // a reported difference is not carried into later steps
         StepOut { violations: vs, outcome, dead: false }
     }
     fn canon(&self) -> Vec<u8> {
@@ -519,6 +581,9 @@ struct Following {
 }
 
 struct PSys {
+    /// `--strict-policy-intent`: read "reflect the last write" operation-wise (`seed` / `follow`
+    /// also lift a block) instead of field-wise (see `step`).
+    strict: bool,
     st: radicle::node::policy::store::Store<radicle::node::policy::store::Write>,
     /// Last written policy per repository, and the last written scope (kept while blocked).
     seeding: BTreeMap<u8, Seeding>,
@@ -528,8 +593,9 @@ struct PSys {
 }
 
 impl PSys {
-    fn new() -> Self {
+    fn new(strict: bool) -> Self {
         PSys {
+            strict,
             st: radicle::node::policy::store::Store::<radicle::node::policy::store::Write>::memory().unwrap(),
             seeding: BTreeMap::new(),
             scope_written: BTreeMap::new(),
@@ -613,12 +679,22 @@ impl System for PSys {
         let mut vs = vec![];
         let (op, outcome);
         match *ev {
-            // "Seeding and following policies reflect the last write": every operation writes what
-            // its name says, and a later read returns it.
+            // "Seeding and following policies reflect the last write", read field by field: an entry
+            // has a policy (allow / block) and a scope resp. alias. `seed` writes the scope, `follow`
+            // writes the alias, `set_*_policy` writes the policy; whichever write creates an entry
+            // creates it allowed (unless it writes "block"). A block is therefore lifted by
+            // `set_*_policy(allow)`, `unblock_*`, `unseed` / `unfollow` — the repository ships
+            // `rad unblock` "to allow them to be seeded or followed" — and not by `seed` / `follow`.
+            // With `--strict-policy-intent` the operation-wise reading is demanded instead: after
+            // `seed` the repository is seeded, after `follow` the node is followed.
             PEv::PolicySeed { repo, scope_all } => {
                 let was = self.seeding.get(&repo).cloned();
                 let ret = self.st.seed(&rid(repo), if scope_all { Scope::All } else { Scope::Followed }).unwrap();
-                self.seeding.insert(repo, Seeding::Allow { scope_all });
+                if was == Some(Seeding::Block) && !self.strict {
+                    // policy field untouched; the scope is recorded for when the block is lifted
+                } else {
+                    self.seeding.insert(repo, Seeding::Allow { scope_all });
+                }
                 self.scope_written.insert(repo, scope_all);
                 op = "seed";
                 outcome = format!("policy.seed:{}:ret={ret}", match was { None => "new", Some(Seeding::Block) => "was-blocked", Some(_) => "was-seeded" });
@@ -664,7 +740,8 @@ impl System for PSys {
                 let was = self.following.get(&node).cloned();
                 let a = ALIASES[alias as usize].map(Alias::new);
                 let ret = self.st.follow(&nid(node), a.as_ref()).unwrap();
-                self.following.insert(node, Following { allow: true, alias: ALIASES[alias as usize].map(str::to_string) });
+                let blocked = was.as_ref().is_some_and(|f| !f.allow);
+                self.following.insert(node, Following { allow: !blocked || self.strict, alias: ALIASES[alias as usize].map(str::to_string) });
                 op = "follow";
                 outcome = format!("policy.follow:{}:ret={ret}", match was { None => "new", Some(Following { allow: false, .. }) => "was-blocked", Some(_) => "was-followed" });
             }
@@ -695,6 +772,17 @@ impl System for PSys {
         self.dump = self.dump(&mut vs);
         vs.extend(diff("policy-seeding", op, &before_s, &self.seeding, &self.dump.0));
         vs.extend(diff("policy-following", op, &before_f, &self.following, &self.dump.1));
+        if self.seeding != self.dump.0 || self.following != self.dump.1 {
+            // A reported difference is not carried into later steps.
+            self.seeding = self.dump.0.clone();
+            self.following = self.dump.1.clone();
+            self.scope_written.retain(|r, _| self.seeding.contains_key(r));
+            for (r, p) in &self.seeding {
+                if let Seeding::Allow { scope_all } = p {
+                    self.scope_written.insert(*r, *scope_all);
+                }
+            }
+        }
         StepOut { violations: vs, outcome, dead: false }
     }
 
@@ -839,6 +927,12 @@ impl GSys {
     }
 }
 
+impl Drop for GSys {
+    fn drop(&mut self) {
+        recycle(3, &self.db);
+    }
+}
+
 impl System for GSys {
     type Ev = GEv;
     fn enabled(&self) -> Vec<GEv> {
@@ -952,6 +1046,15 @@ impl System for GSys {
         }
         self.dump = self.dump(&mut vs);
         vs.extend(diff("gossip", op, &before, &self.model, &self.dump));
+        if self.model != self.dump {
+            // A reported difference is not carried into later steps.
+            self.model = self.dump.clone();
+            self.ids.retain(|k, _| self.model.contains_key(k));
+            self.relay.retain(|k, _| self.model.contains_key(k));
+            for k in self.model.keys() {
+                self.relay.entry(*k).or_insert(Relay::Unstated);
+            }
+        }
         StepOut { violations: vs, outcome, dead: false }
     }
 
@@ -994,6 +1097,7 @@ fn main() {
     let ctx = Ctx::from_env("C24", "model_checking");
     let thorough = ctx.tier == mcx::Tier::Thorough;
     announcements(); // sign the alphabet once, before any worker thread needs it
+    let strict = ctx.extra_args.iter().any(|a| a == "--strict-policy-intent");
 
     let r_nodes: u8 = if thorough { 3 } else { 2 };
     let s_nodes: u8 = 2;
@@ -1009,7 +1113,7 @@ fn main() {
         } else if serde_json::from_value::<Vec<FEv>>(h.clone()).is_ok() {
             ctx.finish_replay(explore::replay::<FSys>("C24", || FSys::new(5), &w));
         } else if serde_json::from_value::<Vec<PEv>>(h.clone()).is_ok() {
-            ctx.finish_replay(explore::replay::<PSys>("C24", PSys::new, &w));
+            ctx.finish_replay(explore::replay::<PSys>("C24", move || PSys::new(strict), &w));
         } else {
             ctx.finish_replay(explore::replay::<GSys>("C24", || GSys::new(6), &w));
         }
@@ -1018,7 +1122,7 @@ fn main() {
     let mut t = Totals { exhaustive: true, ..Default::default() };
     // Depth bounds: the small stores are explored until no new state appears (the bound is only a
     // safety net); the larger ones to the stated depth.
-    let (rd, sd, fd, pd, gd) = if thorough { (6, 12, 5, 12, 4) } else { (12, 4, 4, 12, 3) };
+    let (rd, sd, fd, pd, gd) = if thorough { (5, 12, 5, 12, 4) } else { (6, 12, 12, 12, 3) };
     let wall = if thorough { 200 } else { 25 };
 
     let sp = RSpace { nodes: r_nodes };
@@ -1028,8 +1132,8 @@ fn main() {
     absorb(&mut t, "sync-status", SSys::new(s_nodes).enabled().len(), r);
     let r = explore::explore("C24", move || FSys::new(f_keys), Bounds::new(fd, 0).wall_secs(wall));
     absorb(&mut t, "refs", FSys::new(f_keys).enabled().len(), r);
-    let r = explore::explore("C24", PSys::new, Bounds::new(pd, 0).wall_secs(wall));
-    absorb(&mut t, "policy", PSys::new().enabled().len(), r);
+    let r = explore::explore("C24", move || PSys::new(strict), Bounds::new(pd, 0).wall_secs(wall));
+    absorb(&mut t, "policy", PSys::new(strict).enabled().len(), r);
     let r = explore::explore("C24", move || GSys::new(g_keys), Bounds::new(gd, 0).wall_secs(wall));
     absorb(&mut t, "gossip", GSys::new(g_keys).enabled().len(), r);
 
@@ -1054,13 +1158,16 @@ fn main() {
                a state is (full dump of the store through its query API, model); replay-from-scratch on a fresh in-memory database"),
     );
     cov.insert("samples".into(), json!([]));
+    cov.insert("strict_policy_intent".into(), json!(strict));
     ctx.finish(
         cov,
         &[
             "sqlite (bundled) is trusted",
+            "node databases are reused by a worker after all rows of the four tables under test are deleted; the engine re-checks the canonical key (incl. row ids / row order) of every replayed history",
             "return values of mutating operations are not judged (the statement is silent about them)",
             "a prune with a limit may remove any at-most-limit subset of the eligible entries (the statement does not say which)",
             "relay status of an announcement that was never marked since it was stored or replaced is not judged",
+            "policies: 'reflect the last write' is read field by field (seed writes the scope, follow the alias, set_*_policy the policy; a block is lifted by unblock / set_*_policy(allow) / removal, not by seed / follow); --strict-policy-intent demands the operation-wise reading",
         ],
         t.violations,
     );
